@@ -36,3 +36,30 @@ if a in s:
     print('status table updated')
 else:
     print(tbl)
+
+
+# ---- seeded-changes table (Appendix E) from seeded/SUMMARY.json (written by tools/seeded_all.py) ------------------------------
+sp = os.path.join(ROOT, 'seeded', 'SUMMARY.json')
+a2, b2 = '<!-- SEEDED-TABLE-BEGIN -->', '<!-- SEEDED-TABLE-END -->'
+s = open(p).read()
+if os.path.exists(sp) and a2 in s:
+    S = json.load(open(sp))
+    rows = []
+    for name in sorted(S):
+        v = S[name]
+        if 'error' in v:
+            rows.append('| %s | (not run: %s) | |' % (name, v['error'][:60]))
+            continue
+        pv = ['%s' % x for x in v.get('proof_tier_violation_lines', [])]
+        nd = [x for x in v.get('proof_tier_not_discharged', []) if not any(x.split(' [')[0] in y for y in pv)]
+        proof = '; '.join(pv) if pv else ''
+        if nd:
+            proof += ('; ' if proof else '') + 'not discharged (UNDECIDED): ' + '; '.join(nd[:3]) + (' ...' if len(nd) > 3 else '')
+        rows.append('| %s | %s | %s |' % (name, proof or '-', ', '.join(v.get('bounded_tier_violation_lines', [])) or '-'))
+    n_det = sum(1 for v in S.values() if v.get('proof_tier_violation_lines') or v.get('bounded_tier_violation_lines'))
+    n_proof = sum(1 for v in S.values() if v.get('proof_tier_violation_lines'))
+    tbl2 = ('%d changes, %d detected (VIOLATION line), %d of them named by the proof tier.\n\n| change | proof tier | bounded tier (checks that fired) |\n|---|---|---|\n' % (len(S), n_det, n_proof)
+            + '\n'.join(rows))
+    s = s[:s.index(a2) + len(a2)] + '\n' + tbl2 + '\n' + s[s.index(b2):]
+    open(p, 'w').write(s)
+    print('seeded table updated: %d changes, %d detected' % (len(S), n_det))
